@@ -1,12 +1,249 @@
-(* C02: evaluation matches the reference semantics.  Statements only. *)
-From Coq Require Import ZArith List.
-From ZV Require Import Model.Num Model.RefSem.
+(* C02: evaluation matches the reference semantics: values, control flow, effect order.
+   Statements only; proofs in Proofs/RefSemProofs.v.  Every theorem is about the reference
+   evaluator Model/RefSem.v (eval / apply / eval_program) for ALL programs, stores and fuels;
+   that the real compiler + VM compute the same observables is what the correspondence run
+   of checks/c02.py establishes on generated programs (see docs/C02.md).
+
+   Not proved (named here so that nobody mistakes it for done):
+     vm_refines_ref_F0_partial -- a Gallina model of generator.go (GenerateBegin / GenerateCond /
+     GenerateShortCircuit / GenerateLet jump offsets and pops) with  run (gen e) = eval e  for the
+     closure-free fragment was planned in DESIGN.md section 2; it has NOT been written.  The
+     jump-offset arithmetic of the real generator is covered by the exhaustive + random
+     correspondence run and by the seeded-change trials only. *)
+From Coq Require Import ZArith Bool List.
+From ZV Require Import Model.Num Model.RefSem Proofs.RefSemProofs.
 Import ListNotations.
 Open Scope Z_scope.
 
-(* non-vacuity: (def x 1) ((fn [a] (+ a x)) 41)  evaluates to 42 *)
+(* ---- 1. the evaluator is deterministic and monotone in fuel ---- *)
+
+Theorem eval_fuel_mono : forall n n' env e s r s',
+  eval n env e s = (r, s') -> r <> Fuel -> (n <= n')%nat -> eval n' env e s = (r, s').
+Proof. exact RefSemProofs.eval_fuel_mono. Qed.
+Print Assumptions eval_fuel_mono.
+
+Theorem apply_fuel_mono : forall n n' f args s r s',
+  apply n f args s = (r, s') -> r <> Fuel -> (n <= n')%nat -> apply n' f args s = (r, s').
+Proof. exact RefSemProofs.apply_fuel_mono. Qed.
+Print Assumptions apply_fuel_mono.
+
+Theorem eval_deterministic : forall n1 n2 env e s r1 s1 r2 s2,
+  eval n1 env e s = (r1, s1) -> eval n2 env e s = (r2, s2) -> r1 <> Fuel -> r2 <> Fuel ->
+  r1 = r2 /\ s1 = s2.
+Proof. exact RefSemProofs.eval_deterministic. Qed.
+Print Assumptions eval_deterministic.
+
+Theorem eval_program_fuel_mono : forall n n' k forms,
+  o_res (eval_program_cfg n k forms) <> Fuel -> (n <= n')%nat ->
+  eval_program_cfg n' k forms = eval_program_cfg n k forms.
+Proof. exact RefSemProofs.eval_program_fuel_mono. Qed.
+Print Assumptions eval_program_fuel_mono.
+
+(* ---- 2. calls: callee, then each argument exactly once left to right, then the body ---- *)
+
+Theorem args_once_ltr : forall n env f args s fv s1 vs s2 r s3,
+  (match f with EVar _ => true | _ => cc [] f end) = true ->
+  eval n env f s = (Done fv, s1) -> is_fn fv = true ->
+  run_args (eval n) env args s1 vs s2 ->
+  apply n fv vs s2 = (r, s3) ->
+  eval (S n) env (ECall f args) s = (r, s3) /\
+  exists tc ta tb, trace s1 = tc ++ trace s /\ trace s2 = ta ++ tc ++ trace s /\
+                   trace s3 = tb ++ ta ++ tc ++ trace s.
+Proof. exact RefSemProofs.args_once_ltr. Qed.
+Print Assumptions args_once_ltr.
+
+(* run_args (one evaluation per argument, in order, threading the store) is exactly what
+   the evaluator does with an argument list *)
+Theorem ev_args_iff_run_args : forall ev env es s vs s',
+  ev_args ev env es s = (Done vs, s') <-> run_args ev env es s vs s'.
+Proof. exact RefSemProofs.ev_args_iff_run_args. Qed.
+Print Assumptions ev_args_iff_run_args.
+
+Theorem ev_args_stops : forall ev env es1 e r s vs1 s1 g s2,
+  ev_args ev env es1 s = (Done vs1, s1) -> cc [] e = true -> ev env e s1 = (Sig g, s2) ->
+  ev_args ev env (es1 ++ e :: r) s = (Sig g, s2).
+Proof. exact RefSemProofs.ev_args_stops. Qed.
+Print Assumptions ev_args_stops.
+
+Theorem call_callee_fails : forall n env f args s g s1,
+  (match f with EVar _ => true | _ => cc [] f end) = true ->
+  eval n env f s = (Sig g, s1) -> eval (S n) env (ECall f args) s = (Sig g, s1).
+Proof. exact RefSemProofs.call_callee_fails. Qed.
+Print Assumptions call_callee_fails.
+
+(* ---- 3. cond / and / or evaluate only the arms they must ---- *)
+
+Theorem cond_evaluates_only_needed : forall ev env c b r d r' d' s v s1,
+  ev env c s = (Done v, s1) -> truthy v = true ->
+  ev_cond ev env ((c, b) :: r) d s = ev_cond ev env ((c, b) :: r') d' s.
+Proof. exact RefSemProofs.cond_only_needed. Qed.
+Print Assumptions cond_evaluates_only_needed.
+
+Theorem cond_first_true : forall ev env c b r d s v s1,
+  ev env c s = (Done v, s1) -> truthy v = true ->
+  ev_cond ev env ((c, b) :: r) d s = ev env b s1.
+Proof. exact RefSemProofs.cond_first_true. Qed.
+Print Assumptions cond_first_true.
+
+Theorem cond_first_false : forall ev env c b r d s v s1,
+  ev env c s = (Done v, s1) -> truthy v = false ->
+  ev_cond ev env ((c, b) :: r) d s = ev_cond ev env r d s1.
+Proof. exact RefSemProofs.cond_first_false. Qed.
+Print Assumptions cond_first_false.
+
+Theorem and_short_circuit : forall ev env e r r' s v s1,
+  r <> [] -> r' <> [] -> ev env e s = (Done v, s1) -> truthy v = false ->
+  ev_and ev env (e :: r) s = (Done v, s1) /\ ev_and ev env (e :: r') s = (Done v, s1).
+Proof. exact RefSemProofs.and_short_circuit. Qed.
+Print Assumptions and_short_circuit.
+
+Theorem or_short_circuit : forall ev env e r r' s v s1,
+  r <> [] -> r' <> [] -> ev env e s = (Done v, s1) -> truthy v = true ->
+  ev_or ev env (e :: r) s = (Done v, s1) /\ ev_or ev env (e :: r') s = (Done v, s1).
+Proof. exact RefSemProofs.or_short_circuit. Qed.
+Print Assumptions or_short_circuit.
+
+Theorem and_continue : forall ev env e a r s v s1,
+  ev env e s = (Done v, s1) -> truthy v = true ->
+  ev_and ev env (e :: a :: r) s = ev_and ev env (a :: r) s1.
+Proof. exact RefSemProofs.and_continue. Qed.
+Print Assumptions and_continue.
+
+Theorem or_continue : forall ev env e a r s v s1,
+  ev env e s = (Done v, s1) -> truthy v = false ->
+  ev_or ev env (e :: a :: r) s = ev_or ev env (a :: r) s1.
+Proof. exact RefSemProofs.or_continue. Qed.
+Print Assumptions or_continue.
+
+(* the value of and/or is the value of the last operand evaluated *)
+Theorem and_last : forall ev env e s, ev_and ev env [e] s = ev env e s.
+Proof. exact RefSemProofs.and_last. Qed.
+Theorem or_last : forall ev env e s, ev_or ev env [e] s = ev env e s.
+Proof. exact RefSemProofs.or_last. Qed.
+
+(* ---- 4. begin ---- *)
+
+Theorem begin_value_is_last : forall ev env es e s vs s1,
+  run_all ev env es s vs s1 -> ev_begin ev env (es ++ [e]) s = ev env e s1.
+Proof. exact RefSemProofs.begin_value_is_last. Qed.
+Print Assumptions begin_value_is_last.
+
+Theorem begin_stops_at_first_failure : forall ev env es e r s vs s1 g s2,
+  run_all ev env es s vs s1 -> ev env e s1 = (Sig g, s2) -> r <> [] ->
+  ev_begin ev env (es ++ e :: r) s = (Sig g, s2).
+Proof. exact RefSemProofs.begin_stops_at_first_failure. Qed.
+Print Assumptions begin_stops_at_first_failure.
+
+(* ---- 5. break / continue leave exactly the loops up to the one they address ---- *)
+
+Theorem break_ends_addressed_loop : forall ev k env lbl test step body s t s1 l s2,
+  ev env test s = (Done t, s1) -> truthy t = true ->
+  ev_begin ev env body s1 = (Sig (SBreak l), s2) -> hits l lbl = true ->
+  for_loop ev (S k) env lbl test step body s = (Done VNil, s2).
+Proof. exact RefSemProofs.for_loop_break_hits. Qed.
+Print Assumptions break_ends_addressed_loop.
+
+Theorem break_passes_other_loop : forall ev k env lbl test step body s t s1 l s2,
+  ev env test s = (Done t, s1) -> truthy t = true ->
+  ev_begin ev env body s1 = (Sig (SBreak l), s2) -> hits l lbl = false ->
+  for_loop ev (S k) env lbl test step body s = (Sig (SBreak l), s2).
+Proof. exact RefSemProofs.for_loop_break_passes. Qed.
+Print Assumptions break_passes_other_loop.
+
+Theorem continue_resumes_addressed_loop : forall ev k env lbl test step body s t s1 l s2,
+  ev env test s = (Done t, s1) -> truthy t = true ->
+  ev_begin ev env body s1 = (Sig (SCont l), s2) -> hits l lbl = true ->
+  for_loop ev (S k) env lbl test step body s =
+  (_ <- no_loop_sig EUnspec (ev env step) ;; for_loop ev k env lbl test step body) s2.
+Proof. exact RefSemProofs.for_loop_continue_hits. Qed.
+Print Assumptions continue_resumes_addressed_loop.
+
+Theorem continue_passes_other_loop : forall ev k env lbl test step body s t s1 l s2,
+  ev env test s = (Done t, s1) -> truthy t = true ->
+  ev_begin ev env body s1 = (Sig (SCont l), s2) -> hits l lbl = false ->
+  for_loop ev (S k) env lbl test step body s = (Sig (SCont l), s2).
+Proof. exact RefSemProofs.for_loop_continue_passes. Qed.
+Print Assumptions continue_passes_other_loop.
+
+Theorem break_label_addresses : forall x mine, hits (Some x) mine = true <-> mine = Some x.
+Proof. exact RefSemProofs.hits_labelled. Qed.
+Theorem break_plain_addresses_innermost : forall mine, hits None mine = true.
+Proof. exact RefSemProofs.hits_unlabelled. Qed.
+
+(* a break/continue never leaves a function activation: `apply` wraps the body in no_loop_sig *)
+Theorem break_never_crosses_activation : forall A e (m : M A) s r s1, no_loop_sig e m s = (r, s1) ->
+  (forall l, r <> Sig (SBreak l)) /\ (forall l, r <> Sig (SCont l)).
+Proof. exact RefSemProofs.no_loop_sig_spec. Qed.
+Print Assumptions break_never_crosses_activation.
+
+(* ---- 6. integer arithmetic wraps modulo 2^64 (range and congruence from C07's NumProofs) ---- *)
+
+Theorem add_wraps : forall ap a b s,
+  prim_apply ap PAdd [VInt a; VInt b] s = (Done (VInt (wrap64 (a + b))), s) /\
+  in_i64 (wrap64 (a + b)) = true /\ (wrap64 (a + b) - (a + b)) mod two64 = 0.
+Proof. exact RefSemProofs.add_wraps_ref. Qed.
+Print Assumptions add_wraps.
+
+Theorem sub_wraps : forall ap a b s,
+  prim_apply ap PSub [VInt a; VInt b] s = (Done (VInt (wrap64 (a - b))), s) /\
+  in_i64 (wrap64 (a - b)) = true /\ (wrap64 (a - b) - (a - b)) mod two64 = 0.
+Proof. exact RefSemProofs.sub_wraps_ref. Qed.
+Print Assumptions sub_wraps.
+
+Theorem mul_wraps : forall ap a b s,
+  prim_apply ap PMul [VInt a; VInt b] s = (Done (VInt (wrap64 (a * b))), s) /\
+  in_i64 (wrap64 (a * b)) = true /\ (wrap64 (a * b) - (a * b)) mod two64 = 0.
+Proof. exact RefSemProofs.mul_wraps_ref. Qed.
+Print Assumptions mul_wraps.
+
+(* ---- 7. the store only grows: the trace is extended, never rewritten ---- *)
+
+Theorem eval_extends_store : forall n env e s r s', eval n env e s = (r, s') -> ext s s'.
+Proof. exact RefSemProofs.eval_extends_store. Qed.
+Print Assumptions eval_extends_store.
+
+(* ---- 8. non-vacuity ---- *)
+
+(* (def x 1) ((fn [a] (+ a x)) 41) = 42 *)
 Example ex_call :
   o_res (eval_program 50 [EDef 100 (EInt 1);
                           ECall (EFn [101] None [ECall (EVar 1) [EVar 101; EVar 100]]) [EInt 41]])
   = Done (SvInt 42).
+Proof. vm_compute. reflexivity. Qed.
+
+(* ((begin (trace 0) list) (trace 1) (trace 2)): callee first, then the arguments in order *)
+Example ex_order :
+  o_trace (eval_program 50 [ECall (EBegin [ECall (EVar 22) [EInt 0]; EVar 14])
+                                  [ECall (EVar 22) [EInt 1]; ECall (EVar 22) [EInt 2]]])
+  = [[SvInt 0]; [SvInt 1]; [SvInt 2]].
+Proof. vm_compute. reflexivity. Qed.
+
+(* (for la: [(def i 0) (< i 3) (set i (+ i 1))] (for [(def j 0) (< j 3) (set j (+ j 1))]
+      (trace j) (cond (== j 1) (break la:) nil)))  traces 0 1 and leaves both loops *)
+Example ex_labelled_break :
+  eval_program 100
+    [EFor (Some 500) (EDef 200 (EInt 0)) (ECall (EVar 4) [EVar 200; EInt 3])
+          (ESet 200 (ECall (EVar 1) [EVar 200; EInt 1]))
+       [EFor None (EDef 201 (EInt 0)) (ECall (EVar 4) [EVar 201; EInt 3])
+             (ESet 201 (ECall (EVar 1) [EVar 201; EInt 1]))
+          [ECall (EVar 22) [EVar 201];
+           ECond [(ECall (EVar 8) [EVar 201; EInt 1], EBreak (Some 500))] ENil]]]
+  = mkOutcome (Done SvNil) [[SvInt 0]; [SvInt 1]].
+Proof. vm_compute. reflexivity. Qed.
+
+(* a break inside a call argument is rejected when the argument is compiled *)
+Example ex_break_in_argument :
+  o_res (eval_program 100
+    [EFor None (EDef 200 (EInt 0)) (ECall (EVar 4) [EVar 200; EInt 3])
+          (ESet 200 (ECall (EVar 1) [EVar 200; EInt 1]))
+       [ECall (EVar 1) [EInt 1; EBreak None]]])
+  = Sig (SErr ELoop).
+Proof. vm_compute. reflexivity. Qed.
+
+Example ex_wrap : o_res (eval_program 20 [ECall (EVar 1) [EInt 9223372036854775807; EInt 1]])
+  = Done (SvInt (-9223372036854775808)).
+Proof. vm_compute. reflexivity. Qed.
+
+Example ex_out_of_fuel_is_distinct :
+  o_res (eval_program 30 [EDefn 101 [100] None [ECall (EVar 101) [EVar 100]]; ECall (EVar 101) [EInt 1]]) = Fuel.
 Proof. vm_compute. reflexivity. Qed.
